@@ -19,7 +19,14 @@ RULE = ("case = (namespace tree of depth <= 3 with a nested configuration dict p
         "default-sub-collection shortcut and dash/underscore spelling); observed at Collection.configuration / "
         "task_with_config, at the config the task body sees through Program.run, and by mutating the returned "
         "mapping; a case is non-trivial when some task lies below the root and two collections on its path share a "
-        "section; distinct = distinct (tree, names)")
+        "section; distinct = distinct (tree, names).  Histories on ONE live tree (case = initial tree + explicit list of "
+        "steps, judged after every step against a spec tree that received the same operations): lookups - "
+        "configuration(name), task_with_config, to_contexts, a Program run, an Executor run; through the root and through "
+        "intermediate collections; returned mappings tampered with - interleaved with configure() at every depth (0..4, "
+        "weighted towards grandchildren and below), add_task (aliases, defaults) and add_collection of new configured "
+        "sub-trees (also as default sub-collection) at every depth, and the mounting of a collection of the tree under a "
+        "second configured root that is then asked as well; a history is non-trivial when a mutation at depth >= 1 is "
+        "followed by a lookup through a strict ancestor")
 TRUSTED = ["Lean 4.33 kernel", "axioms propext/Classical.choice/Quot.sound only",
            "harness/props/c10.py + c17.py: tree builder, serialisation of the real object, canonicalisation",
            "models Invoke/Model/Collection.lean and Invoke/Model/Val.lean hand-written, tied to invoke.collection / "
@@ -37,7 +44,13 @@ LEVEL_TEXT = ("Lean 4 proofs over ALL namespace trees and names: whenever task_w
               "every key path the outermost collection defining it wins and inner settings are otherwise preserved "
               "(ns_config_leaf_outermost_wins, via getLeaf_mergeT), replacing any collection off the path changes "
               "nothing (siblings_contribute_nothing), and aliases / default shortcuts give the same settings as the "
-              "primary name (same_for_alias_and_default_shortcut); the model is tied to invoke.collection + "
+              "primary name (same_for_alias_and_default_shortcut); over HISTORIES of configure/add_task/add_collection at "
+              "any depth interleaved with lookups the answer depends only on the tree produced by the mutations so far "
+              "(history_lookup_depends_only_on_current_tree, history_earlier_lookups_irrelevant), is the deep merge along "
+              "the path in THAT tree (history_config_is_deep_merge_of_current_tree), configure reaches exactly the "
+              "addressed collection and mutations off the path change nothing (configure_updates_the_addressed_collection, "
+              "mutation_off_path_changes_nothing) - the same step lists are replayed on the real objects and on the model "
+              "(driver query H); the model is tied to invoke.collection + "
               "merge_dicts on every run by a differential check on generated trees and a direct recursive-merge oracle; "
               "freshness is proved on a minimal object model (dicts with addresses, copy_dict/merge_dicts allocating: "
               "configuration_fresh, configuration_fresh_for_lookup, shown to compute the value model) and established "
@@ -256,11 +269,24 @@ def gen_history(rng, spec, nsteps):
         w = [(1 + len(p) * deep_bias) for _, p in ns]
         return rng.choices(ns, weights=w)[0]
 
-    def look(path=None):
+    mounted = []  # second roots: (index, path of the shared collection in the first tree)
+
+    def look(path=None, root=0):
         if path is None:
             path = []
-        steps.append({"op": "look", "at": path, "how": rng.choice(HOWS), "pick": rng.randrange(1000),
+        steps.append({"op": "look", "root": root, "at": path, "how": rng.choice(HOWS), "pick": rng.randrange(1000),
                       "tamper": rng.random() < 0.5})
+
+    def mount():
+        inner = [(n, p) for n, p in nodes() if p and base.has_tasks(n)]
+        if not inner:
+            return
+        n, p = rng.choice(inner)
+        cfg = base.gen_cfg(rng, True)
+        steps.append({"op": "mount", "at": p, "cfg": cfg, "ad": root_ad if rng.random() < 0.8 else (not root_ad),
+                      "bind": "shared_x%d" % (len(mounted) + 1)})
+        mounted.append((len(mounted) + 1, p))
+        look([], len(mounted))
 
     # prime whatever the objects may remember: through the root, and through some intermediate collections
     look([])
@@ -269,7 +295,10 @@ def gen_history(rng, spec, nsteps):
             look(p)
     if rng.random() < 0.5:
         look([])
-    for _ in range(nsteps):
+    mount_at = rng.randrange(nsteps) if rng.random() < 0.35 else -1
+    for stepno in range(nsteps):
+        if stepno == mount_at:
+            mount()
         r = rng.random()
         serial[0] += 1
         k = serial[0]
@@ -315,7 +344,12 @@ def gen_history(rng, spec, nsteps):
             look([])
         if path and rng.random() < 0.35:
             look(path[:rng.randrange(len(path))] if rng.random() < 0.6 else path)
+        for k2, mp in mounted:  # the change lies inside a collection that a second root mounts as well
+            if path[:len(mp)] == mp and rng.random() < 0.9:
+                look([], k2)
     look([])
+    for k2, mp in mounted:
+        look([], k2)
     return steps
 
 
@@ -326,10 +360,18 @@ def has_default(node):
 def hist_features(spec, steps):
     """what a history exercises: depth of every mutation that is followed by a lookup through a strict ancestor"""
     f = []
+    mounts = {}
     for i, st in enumerate(steps):
-        if st["op"] == "look":
+        if st["op"] == "mount":
+            mounts[len(mounts) + 1] = st["at"]
+            f.append("mount_depth%d" % len(st["at"]))
+        if st["op"] in ("look", "mount"):
             continue
-        later = [s for s in steps[i + 1:] if s["op"] == "look" and len(s["at"]) <= len(st["at"]) and st["at"][:len(s["at"])] == s["at"]]
+        for k2, mp in mounts.items():
+            if st["at"][:len(mp)] == mp and any(s["op"] == "look" and s.get("root", 0) == k2 for s in steps[i + 1:]):
+                f.append("%s_inside_shared_seen_from_second_root" % st["op"])
+        later = [s for s in steps[i + 1:] if s["op"] == "look" and s.get("root", 0) == 0 and len(s["at"]) <= len(st["at"])
+                 and st["at"][:len(s["at"])] == s["at"]]
         if not later:
             continue
         gap = max(len(st["at"]) - len(s["at"]) for s in later)
@@ -343,6 +385,8 @@ def check_look(spec, root, b, st, hist, lines=None):
     fails = []
     node, real = base.node_at(spec, root, st["at"])
     where = "/".join(addr_keys(spec, st["at"])) or "<root>"
+    if st.get("root", 0):
+        where = "<second root #%d mounting a collection of the first tree>%s" % (st["root"], "" if where == "<root>" else "/" + where)
     infos = base.expected_bindings(node, real, b)
     want = {i["vid"]: expected_cfg(i) for i in infos}
     by_vid = {i["vid"]: i for i in infos}
@@ -452,6 +496,23 @@ def apply_op(spec, root, b, st):
     raise ValueError(st["op"])
 
 
+def mount_second_root(spec, root, b, st):
+    """a second root collection that mounts (the very object of) a collection of the first tree"""
+    from invoke import Collection
+    node, real = base.node_at(spec, root, st["at"])
+    ospec = {"name": None, "ad": st["ad"], "tasks": [{"fn": "other_task", "tname": None, "own": [], "bind": None, "extra": [],
+                                                       "default": None}],
+             "colls": [{"node": node, "bind": st["bind"], "default": False}], "cfg": copy.deepcopy(st["cfg"]), "via": "methods"}
+    other = Collection(auto_dash_names=st["ad"])
+    t, vid = base.make_task(b, ospec["tasks"][0])
+    ospec["tasks"][0]["_vid"] = vid
+    other.add_task(t)
+    if st["cfg"]:
+        other.configure(copy.deepcopy(st["cfg"]))
+    other.add_collection(real, name=st["bind"])
+    return ospec, other
+
+
 def run_history(tree, steps, hist=None, want_model=False):
     """-> (fails, index of the first failing step or None, model line or None, impl answers)"""
     from collections import Counter
@@ -460,10 +521,15 @@ def run_history(tree, steps, hist=None, want_model=False):
     fails = []
     enc0 = base.enc(root) if (want_model and base.encodable(root)) else None
     msteps, answers = [], []
+    roots = [(spec, root)]
     for k, st in enumerate(steps):
-        if st["op"] == "look":
-            looked = [] if enc0 is not None else None
-            found = check_look(spec, root, b, st, hist, looked)
+        if st["op"] == "mount":
+            roots.append(mount_second_root(spec, root, b, st))
+            hist["hist_op_mount"] += 1
+        elif st["op"] == "look":
+            rspec, rreal = roots[st.get("root", 0)]
+            looked = [] if (enc0 is not None and not st.get("root", 0)) else None
+            found = check_look(rspec, rreal, b, st, hist, looked)
             hist["hist_looks"] += 1
             if looked:
                 addr = ".".join(addr_keys(spec, st["at"]))
